@@ -253,6 +253,18 @@ theorem C13c_accounting_fails_clear_overlap : ¬ C13c_accounting_statement :=
 theorem C13c_accounting_fails_capacity_race : ¬ C13c_accounting_statement :=
   fails_of_run run_capacityRace (by decide)
 
+/-- **Observation (not a violation of C13's quiescent clause)**: `insert` subtracts the old cost before
+it adds the new one, and another thread's overwrite can subtract a cost that has not been added yet, so
+the counter is transiently negative — the `u64` wraps — while entries are resident. A capacity pass that
+loads the counter in that window sees 2^64 − 5, concludes the cache is over capacity and asks the policy
+to free 2^64 − 5 − capacity: everything the policy tracks is evicted. -/
+def traceTransientWrap : List (Nat × Label) :=
+  [(0, .call (.insert 1 10 5)), (0, .insMap), (1, .call (.insert 1 11 3)), (1, .insMap), (1, .insSub)]
+
+theorem C13c_transient_wrap_reachable :
+    (run cfg2 init traceTransientWrap).map (fun s => (s.cur, obs s, residentCost s)) =
+      some (-5, 18446744073709551611, 3) := by decide
+
 /-! ## non-vacuity -/
 
 /-- two concurrent increments from 10 on key 1 with a concurrent reader: hypotheses of
